@@ -216,6 +216,29 @@ func TestAssumedCoinsAndAddresses(t *testing.T) {
 		if u, err := sdk.AccAddressFromBech32(strings.ToUpper(s)); err != nil || !u.Equals(b) {
 			t.Fatalf("upper-case spelling does not decode to the same address (contract: addrOf is not injective)")
 		}
+		// a string accepted by sdk.ValidateDenom contains no white space: strings.TrimSpace leaves it unchanged
+		// (and the validity test is the length window 3..128 plus a character class, as validDenom states)
+		{
+			const cs = "abcXYZ019/:._- \t\n\u00a0!"
+			n := r.Intn(132)
+			bs := make([]byte, n)
+			for i := range bs {
+				if r.Intn(12) == 0 {
+					bs[i] = cs[r.Intn(len(cs))]
+				} else {
+					bs[i] = cs[r.Intn(15)]
+				}
+			}
+			d := string(bs)
+			if sdk.ValidateDenom(d) == nil {
+				if strings.TrimSpace(d) != d {
+					t.Fatalf("valid denomination %q is changed by TrimSpace", d)
+				}
+				if len(d) < 3 || len(d) > 128 {
+					t.Fatalf("valid denomination %q outside the length window", d)
+				}
+			}
+		}
 		// Coin.Sub panics iff negative or denom mismatch; Coins.AmountOf / SafeSub on one coin
 		x, y := int64(r.Intn(1000)), int64(r.Intn(1000))
 		cx, cy := sdk.NewInt64Coin("nund", x), sdk.NewInt64Coin("nund", y)
